@@ -49,6 +49,7 @@ func c07bCanon(s string, prefix string, base int, v *big.Int) bool {
 	return verifAnd(lower, ok) && got.Cmp(new(big.Int).Abs(v)) == 0
 }
 
+//verif:havoc int:text
 //verif:property C07
 //verif:encoding int
 //verif:maxpaths 30000 100000
